@@ -67,7 +67,7 @@ theorem intDec_neg (n : Nat) (h : 0 < n) : intDec (-(n : Int)) = 45 :: natDec n 
   rw [if_pos hlt, Int.neg_neg, Int.toNat_natCast]
 
 /-- Rust `str::parse::<i32>` (and any signed width) reads back what `to_string` printed -/
-theorem parseSigned_intDec (bits : Nat) (i : Int) (hlo : -(2 ^ (bits - 1) : Int) ≤ i) (hhi : i < 2 ^ (bits - 1)) :
+theorem mc_parseSigned_intDec (bits : Nat) (i : Int) (hlo : -(2 ^ (bits - 1) : Int) ≤ i) (hhi : i < 2 ^ (bits - 1)) :
     parseSigned bits (intDec i) = some i := by
   have hcast : ((2 ^ (bits - 1) : Nat) : Int) = (2 : Int) ^ (bits - 1) := by simp
   by_cases hi : 0 ≤ i
